@@ -83,9 +83,20 @@ def generate(rng, tier):
         cfg.append("make_backup = true")  # in a discovered rustfmt.toml: must never make a read-only mode write
     if cfg:
         files["c/" + rng.choice(["rustfmt.toml", ".rustfmt.toml"])] = "\n".join(cfg) + "\n"
+    # a module file that is a symbolic link to a regular file kept elsewhere: every emitter sees the same text, and
+    # files mode stores the result in the file the link points to
+    linked = {}
+    cands = [f for f in srcs if f not in roots]
+    if cands and rng.chance(15):
+        f = rng.choice(cands)
+        tgt = "lkstore/" + os.path.basename(f)
+        if tgt not in files:
+            files[tgt] = files[f]
+            files[f] = {"symlink": os.path.relpath(tgt, os.path.dirname(f))}
+            linked[f] = tgt
     return {
         "world": {"files": files}, "tree": t.to_json(), "sources": srcs, "variant": variant, "preformatted": pre, "roots": roots,
-        "hashseed": rng.below(1 << 32), "stream_faults": rng.below(4), "abs": rng.chance(20),
+        "hashseed": rng.below(1 << 32), "stream_faults": rng.below(4), "abs": rng.chance(20), "linked": linked,
     }
 
 
@@ -219,11 +230,15 @@ def execute(case):
         if r0.exit != 0 or r0.signal:
             v.probe("input-rejected")
             return v
+        linked = case.get("linked") or {}
+        st = lambda f: linked.get(f, f)  # where the bytes of a source are stored
         for f in case["preformatted"]:
-            world["files"][f] = {"b64": _b64(core.read_rel(sc.root, f))}
+            world["files"][st(f)] = {"b64": _b64(core.read_rel(sc.root, f))}
         for f in srcs:
-            world["files"][f] = {"b64": _b64(_apply_variant(core.file_bytes(world["files"][f]), case["variant"][f]))}
-        orig = {f: core.file_bytes(world["files"][f]) for f in srcs}
+            world["files"][st(f)] = {"b64": _b64(_apply_variant(core.file_bytes(world["files"][st(f)]), case["variant"][f]))}
+        orig = {f: core.file_bytes(world["files"][st(f)]) for f in srcs}
+        if linked:
+            v.probe("symlinked-module-file")
         known = set(srcs)
         cwd_abs = sc.root
         single = len(srcs) == 1
@@ -283,7 +298,7 @@ def execute(case):
         if opened_w != W:
             v.add("C06:files-mode-write-set", "opened for writing %s but content changed for %s" % (sorted(opened_w), sorted(W)))
         for p, (a, b) in df.items():
-            if p not in W:
+            if p not in W and p not in {st(f) for f in W}:
                 v.add("C06:files-mode-touches-unchanged", "%s before/after %s %s" % (p, a, b))
         if W:
             v.probe("needs-rewrite")
